@@ -306,7 +306,8 @@ where
         DatasetBase<ArrayView2<'a, F>, T::View>,
         DatasetBase<ArrayView2<'a, F>, T::View>,
     ) {
-        let n = (self.nsamples() as f32 * ratio).ceil() as usize;
+        // `nsamples as f32` may round up for more than 2^24 samples: never take more than there are
+        let n = ((self.nsamples() as f32 * ratio).ceil() as usize).min(self.nsamples());
         let (records_first, records_second) = self.records.view().split_at(Axis(0), n);
         let (targets_first, targets_second) = self.targets.as_targets().split_at(Axis(0), n);
 
@@ -986,7 +987,8 @@ impl<F, E, I: TargetDim> Dataset<F, E, I> {
 
         let nfeatures = self.nfeatures();
 
-        let n1 = (self.nsamples() as f32 * ratio).ceil() as usize;
+        // `nsamples as f32` may round up for more than 2^24 samples: never take more than there are
+        let n1 = ((self.nsamples() as f32 * ratio).ceil() as usize).min(self.nsamples());
         let n2 = self.nsamples() - n1;
 
         let feature_names = self.feature_names().to_vec();
